@@ -153,6 +153,12 @@ class HTTP(BaseComponent):
         self.fire(write(sock, b'%s%s' % (bytes(res), bytes(headers))))
 
         if req.method == 'HEAD':
+            # No body follows; finish the response like a non-streamed one.
+            if res.close:
+                self.fire(close(sock))
+            if sock in self._clients:
+                del self._clients[sock]
+            res.done = True
             return
         if res.stream and res.body:
             try:
